@@ -43,6 +43,36 @@ impl Drop for L {
         DROPS.fetch_add(1, SeqCst);
     }
 }
+/// doubly linked: `next` strong, `prev` weak (every node but the last is the target of a Weak while the cascade
+/// walks through it)
+pub struct D {
+    next: AtomicRc<D>,
+    prev: circ::AtomicWeak<D>,
+}
+unsafe impl RcObject for D {
+    fn pop_edges(&mut self, out: &mut Vec<Rc<Self>>) {
+        out.push(self.next.take());
+    }
+}
+impl Drop for D {
+    fn drop(&mut self) {
+        DROPS.fetch_add(1, SeqCst);
+    }
+}
+fn build_dll(n: usize) -> Rc<D> {
+    // built from the tail: head -> ... -> tail, each node's `prev` points (weakly) at its predecessor
+    let mut head: Rc<D> = Rc::null();
+    let g = cs();
+    for _ in 0..n {
+        let node = Rc::new(D { next: AtomicRc::null(), prev: circ::AtomicWeak::null() });
+        if let Some(succ) = head.as_ref() {
+            succ.prev.store(node.downgrade(), SeqCst, &g);
+        }
+        node.as_ref().unwrap().next.store(head, SeqCst, &g);
+        head = node;
+    }
+    head
+}
 pub struct T2 {
     l: AtomicRc<T2>,
     r: AtomicRc<T2>,
@@ -258,6 +288,12 @@ pub fn child_c06(shape: &str, n: usize, residue: usize, age: usize, held: usize)
     let (expected, keep): (usize, Option<Rc<L>>);
     let head_drop: Box<dyn FnOnce()>;
     match shape {
+        "dll" => {
+            let c = build_dll(n);
+            expected = n;
+            keep = None;
+            head_drop = Box::new(move || drop(c));
+        }
         "chain" => {
             let c = build_chain(n);
             // an externally held node at position `held` (1-based from the head; 0 = none)
@@ -377,6 +413,26 @@ impl Drop for Late {
                 let mut g = cs();
                 g.reactivate_after(|| {});
             }
+            8 | 9 => {
+                // the late destructor itself READS under a guard it has reactivated (a participant kept alive by the
+                // guard alone when the thread's handle is already gone), while the main thread unlinks what it reads
+                // and collects
+                let mut g = cs();
+                if self.kind == 8 {
+                    g.reactivate();
+                } else {
+                    g.reactivate_after(|| {});
+                }
+                let s = late_shared().load(SeqCst, &g);
+                LATE_READY.store(1, SeqCst);
+                let t0 = std::time::Instant::now();
+                while LATE_GO.load(SeqCst) == 0 && t0.elapsed().as_secs() < 20 {
+                    std::thread::yield_now();
+                }
+                let ok = !s.is_null() && WATCHED2_DROPPED.load(SeqCst) == 0 && LATE_GO.load(SeqCst) == 1;
+                LATE_OK.store(1 + ok as usize, SeqCst);
+                drop(g);
+            }
             _ => {
                 let g = cs();
                 self.cell.store(Rc::null(), SeqCst, &g);
@@ -388,7 +444,24 @@ impl Drop for Late {
 thread_local! {
     static LATE: RefCell<Option<Late>> = const { RefCell::new(None) };
 }
-pub const NKIND: usize = 8;
+pub const NKIND: usize = 10;
+static LATE_READY: AtomicUsize = AtomicUsize::new(0);
+static LATE_GO: AtomicUsize = AtomicUsize::new(0);
+static LATE_OK: AtomicUsize = AtomicUsize::new(0);
+static WATCHED2_DROPPED: AtomicUsize = AtomicUsize::new(0);
+pub struct Watched2;
+unsafe impl RcObject for Watched2 {
+    fn pop_edges(&mut self, _: &mut Vec<Rc<Self>>) {}
+}
+impl Drop for Watched2 {
+    fn drop(&mut self) {
+        WATCHED2_DROPPED.fetch_add(1, SeqCst);
+    }
+}
+fn late_shared() -> &'static AtomicRc<Watched2> {
+    static C: std::sync::OnceLock<AtomicRc<Watched2>> = std::sync::OnceLock::new();
+    C.get_or_init(AtomicRc::null)
+}
 
 /// C20 child: a thread registers its TLS object before (`order` 0) or after (1) its first use of
 /// the library, optionally leaves garbage pending, and exits; the main thread then collects.
@@ -397,6 +470,7 @@ pub fn child_c20(kind: usize, order: usize, pending: usize) {
     {
         let g = cs();
         shared().store(Rc::new(Watched), SeqCst, &g);
+        late_shared().store(Rc::new(Watched2), SeqCst, &g);
     }
     // the reader pins, takes a snapshot and holds both until the other thread is gone
     let (rtx, rrx) = std::sync::mpsc::channel::<()>();
@@ -435,6 +509,19 @@ pub fn child_c20(kind: usize, order: usize, pending: usize) {
             drop(Rc::new(L { next: AtomicRc::null() }));
         }
     });
+    if kind == 8 || kind == 9 {
+        // the exiting thread's late destructor is reading: unlink what it reads and collect
+        let t0 = std::time::Instant::now();
+        while LATE_READY.load(SeqCst) == 0 && t0.elapsed().as_secs() < 20 {
+            std::thread::yield_now();
+        }
+        {
+            let g = cs();
+            late_shared().store(Rc::null(), SeqCst, &g);
+        }
+        settle(12);
+        LATE_GO.store(1, SeqCst);
+    }
     let joined = h.join().is_ok();
     dtx.send(()).unwrap();
     let reader_ok = reader.join().unwrap_or(false);
@@ -450,9 +537,93 @@ pub fn child_c20(kind: usize, order: usize, pending: usize) {
         rounds += 1;
     }
     println!(
-        "{{\"joined\":{},\"drops\":{},\"expected\":{},\"rounds\":{},\"reader_ok\":{},\"watched_dropped\":{}}}",
-        joined as u8, DROPS.load(SeqCst), expected, rounds, reader_ok as u8, WATCHED_DROPPED.load(SeqCst)
+        "{{\"joined\":{},\"drops\":{},\"expected\":{},\"rounds\":{},\"reader_ok\":{},\"watched_dropped\":{},\"late_ok\":{}}}",
+        joined as u8, DROPS.load(SeqCst), expected, rounds, reader_ok as u8, WATCHED_DROPPED.load(SeqCst),
+        (if kind == 8 || kind == 9 { LATE_OK.load(SeqCst) == 2 } else { true }) as u8
     );
+}
+
+// C18 on free-running threads --------------------------------------------------------------------
+const LF_MAX: usize = 512;
+static LF_FIN: [AtomicUsize; LF_MAX] = [const { AtomicUsize::new(0) }; LF_MAX];
+fn lf_ev(kind: u32, _addr: usize, a: u64, _b: u64) {
+    if kind == site::EV_L_FINALIZE && (a as usize) < LF_MAX {
+        LF_FIN[a as usize].fetch_add(1, SeqCst);
+    }
+}
+/// C18 child: races inside the list that have no scheduling point (a read-modify-write replaced by a
+/// load and a store, say) need real threads.  The list is E1 -> X1 -> E2 -> X2 -> ... with every Xi already
+/// deleted; one thread deletes the Ei in order while another traverses (and thereby unlinks what is marked).
+/// At the end every element must have been handed to `finalize` exactly once.
+pub fn child_listfree(trials: usize, m: usize) {
+    use circ::verif::VList;
+    verif::set_hooks(no_pre, lf_ev);
+    let m = m.min(LF_MAX / 2 - 1);
+    let (mut max_fin, mut min_fin, mut stalls, mut bad_trials) = (0usize, usize::MAX, 0usize, 0usize);
+    for _ in 0..trials {
+        for f in LF_FIN.iter() {
+            f.store(0, SeqCst);
+        }
+        let col = std::sync::Arc::new(circ::verif::VCollector::new());
+        let list = std::sync::Arc::new(VList::new());
+        let h0 = col.register();
+        let mut es = vec![0usize; m];
+        let mut xs = vec![0usize; m];
+        {
+            let g = h0.pin();
+            for i in (0..m).rev() {
+                xs[i] = list.insert(2 * i + 1, &g); // Xi
+                es[i] = list.insert(2 * i, &g); // Ei, in front of Xi
+            }
+            for &x in &xs {
+                unsafe { list.delete(x, &g) };
+            }
+        }
+        let go = std::sync::Arc::new(AtomicUsize::new(0));
+        let (l1, g1, c1) = (list.clone(), go.clone(), col.clone());
+        let es1 = es.clone();
+        let deleter = std::thread::spawn(move || {
+            let h = c1.register();
+            while g1.load(SeqCst) == 0 {
+                std::hint::spin_loop();
+            }
+            for &e in &es1 {
+                let g = h.pin();
+                unsafe { l1.delete(e, &g) };
+            }
+        });
+        let (l2, g2, c2) = (list.clone(), go.clone(), col.clone());
+        let walker = std::thread::spawn(move || {
+            let h = c2.register();
+            while g2.load(SeqCst) == 0 {
+                std::hint::spin_loop();
+            }
+            let mut st = 0;
+            for _ in 0..64 {
+                let g = h.pin();
+                let (_, stalled) = l2.traverse(&g);
+                st += stalled as usize;
+            }
+            st
+        });
+        go.store(1, SeqCst);
+        deleter.join().unwrap();
+        stalls += walker.join().unwrap();
+        // whatever is still linked and marked goes now
+        for _ in 0..4 {
+            let g = h0.pin();
+            let _ = list.traverse(&g);
+        }
+        let fins: Vec<usize> = (0..2 * m).map(|i| LF_FIN[i].load(SeqCst)).collect();
+        let (mx, mn) = (*fins.iter().max().unwrap(), *fins.iter().min().unwrap());
+        max_fin = max_fin.max(mx);
+        min_fin = min_fin.min(mn);
+        if mx != 1 || mn != 1 {
+            bad_trials += 1;
+        }
+        std::mem::forget(list); // entries are leaked by the harness element type anyway
+    }
+    println!("{{\"trials\":{},\"m\":{},\"max_fin\":{},\"min_fin\":{},\"bad_trials\":{},\"stalls\":{}}}", trials, m, max_fin, min_fin, bad_trials, stalls);
 }
 
 // C15 shapes --------------------------------------------------------------------------------------
@@ -584,7 +755,7 @@ pub fn run_parent(kind: &str, tier: &str, exe: &str) -> Vec<String> {
             }
             // links written over many more epochs than the stamp window: known finding i
             cases.push(("\"shape\":\"aged\",\"n\":300,\"res\":0,\"age\":4,\"held\":0".to_string(), vec!["child-c06".into(), "aged".into(), "300".into(), "0".into(), "4".into(), "0".into()], 300));
-            for &(shape, n) in &[("tree", 8usize), ("tree", 12), ("rpath", 600), ("rpath", 3000)] {
+            for &(shape, n) in &[("tree", 8usize), ("tree", 12), ("rpath", 600), ("rpath", 3000), ("dll", 2), ("dll", 600), ("dll", 3000)] {
                 for res in [0usize, 3, 7, 11, 14, 15] {
                     cases.push((format!("\"shape\":\"{}\",\"n\":{},\"res\":{},\"age\":4,\"held\":0", shape, n, res), vec!["child-c06".into(), shape.into(), n.to_string(), res.to_string(), "4".into(), "0".into()], 300));
                 }
@@ -594,6 +765,12 @@ pub fn run_parent(kind: &str, tier: &str, exe: &str) -> Vec<String> {
             let (children, n) = if thorough { (96, 600) } else { (24, 300) };
             for c in 0..children {
                 cases.push((format!("\"child\":{},\"n\":{},\"pairs\":20", c, n), vec!["child-free".into(), n.to_string(), "20".into()], 600));
+            }
+        }
+        "listfree" => {
+            let (children, trials) = if thorough { (64, 40_000) } else { (16, 10_000) };
+            for c in 0..children {
+                cases.push((format!("\"child\":{},\"trials\":{},\"m\":64", c, trials), vec!["child-listfree".into(), trials.to_string(), "64".into()], 600));
             }
         }
         "c20" => {
